@@ -5,3 +5,4 @@ import VC2.Props.C12
 import VC2.Props.C13
 import VC2.Props.C20
 import VC2.Props.C11
+import VC2.Props.C17
